@@ -182,6 +182,17 @@ func (s *TableAggregator) Trim(predicate func(col, row string, val int64) bool) 
 		}
 	}
 
+	// Recompute the cached row sums and column totals from the cells that are left
+	cols := make(map[string]int64, len(s.cols))
+	for _, row := range s.rows {
+		row.sum = 0
+		for colName, val := range row.cols {
+			row.sum += val
+			cols[colName] += val
+		}
+	}
+	s.cols = cols
+
 	return trimmed
 }
 
